@@ -185,9 +185,15 @@ def pmap(modname, fname, arglist, procs=None, chunksize=1):
     if procs == 1 or os.environ.get("VERIF_SERIAL") == "1":
         out = [_call((modname, fname, a)) for a in arglist]
     else:
+        # ProcessPoolExecutor (not multiprocessing.Pool): a worker that dies (killed, out of memory) breaks the pool with an
+        # exception instead of leaving map() waiting forever; that is a harness error (exit 2), never a verdict
+        import concurrent.futures as cf
         ctx = multiprocessing.get_context("spawn")
-        with ctx.Pool(procs, initializer=_worker_init, initargs=(env,)) as pool:
-            out = pool.map(_call, [(modname, fname, a) for a in arglist], chunksize=chunksize)
+        try:
+            with cf.ProcessPoolExecutor(max_workers=procs, mp_context=ctx, initializer=_worker_init, initargs=(env,)) as pool:
+                out = list(pool.map(_call, [(modname, fname, a) for a in arglist], chunksize=chunksize))
+        except cf.process.BrokenProcessPool as e:
+            raise HarnessError("a worker process died (killed or out of memory): %s" % e)
     res = []
     for st, v in out:
         if st == "err":
